@@ -416,7 +416,7 @@ func (w *world) randScope() (sigScope, bool) {
 		}
 		return a
 	}
-	switch r.Weighted([]int{72, 12, 5, 7, 4}) {
+	switch r.Weighted([]int{64, 11, 5, 6, 4, 7, 2, 1}) {
 	case 1:
 		return sigScope{scopes: transaction.CalledByEntry}, true
 	case 2:
@@ -425,8 +425,74 @@ func (w *world) randScope() (sigScope, bool) {
 		return sigScope{scopes: transaction.CustomContracts, allowed: pick()}, true
 	case 4:
 		return sigScope{scopes: transaction.CalledByEntry | transaction.CustomContracts, allowed: pick()}, true
+	case 5:
+		return sigScope{scopes: transaction.Rules, rules: w.randRules()}, true
+	case 6:
+		return sigScope{scopes: transaction.Rules | transaction.CustomContracts, allowed: pick(), rules: w.randRules()}, true
+	case 7:
+		// no contract of the case has a manifest group: never a witness
+		return sigScope{scopes: transaction.CustomGroups, groups: []*keys.PublicKey{w.cands[r.Intn(len(w.cands))].PublicKey()}}, true
 	}
 	return sigScope{}, false
+}
+
+// randCond: a random witness condition of nesting depth <= 2 over the natives, the Wallet contracts and the GAS
+// contract as caller (NEO.onNEP17Payment is called by it).
+func (w *world) randCond(depth int) transaction.WitnessCondition {
+	r := w.r
+	hashes := []util.Uint160{w.neoH, w.gasH, w.notaryH, w.policyH, w.wallets[0], w.wallets[len(w.wallets)-1]}
+	leaf := func() transaction.WitnessCondition {
+		switch r.Intn(7) {
+		case 0:
+			b := transaction.ConditionBoolean(r.Bool())
+			return &b
+		case 1, 2:
+			h := transaction.ConditionScriptHash(hashes[r.Intn(4)])
+			return &h
+		case 3:
+			return transaction.ConditionCalledByEntry{}
+		case 4:
+			h := transaction.ConditionCalledByContract(hashes[r.Intn(len(hashes))])
+			return &h
+		case 5:
+			g := transaction.ConditionGroup(*w.cands[r.Intn(len(w.cands))].PublicKey())
+			return &g
+		default:
+			g := transaction.ConditionCalledByGroup(*w.cands[r.Intn(len(w.cands))].PublicKey())
+			return &g
+		}
+	}
+	if depth == 0 || r.Chance(1, 2) {
+		return leaf()
+	}
+	switch r.Intn(3) {
+	case 0:
+		return &transaction.ConditionNot{Condition: w.randCond(depth - 1)}
+	case 1:
+		cs := transaction.ConditionAnd{}
+		for i, n := 0, 2+r.Intn(2); i < n; i++ {
+			cs = append(cs, w.randCond(depth-1))
+		}
+		return &cs
+	default:
+		cs := transaction.ConditionOr{}
+		for i, n := 0, 2+r.Intn(2); i < n; i++ {
+			cs = append(cs, w.randCond(depth-1))
+		}
+		return &cs
+	}
+}
+
+func (w *world) randRules() []transaction.WitnessRule {
+	var rs []transaction.WitnessRule
+	for i, n := 0, 1+w.r.Intn(3); i < n; i++ {
+		a := transaction.WitnessAllow
+		if w.r.Chance(1, 3) {
+			a = transaction.WitnessDeny
+		}
+		rs = append(rs, transaction.WitnessRule{Action: a, Condition: w.randCond(2)})
+	}
+	return rs
 }
 
 func (g *genCtx) genTx() *txSpec {
@@ -486,6 +552,10 @@ func (g *genCtx) genTx() *txSpec {
 				c.src = w.users[r.Intn(len(w.users))].ScriptHash()
 			case 1:
 				c.src = []util.Uint160{w.notaryH, w.neoH, w.gasH, w.policyH, w.treasuryH}[r.Intn(5)]
+			case 2, 3:
+				// a contract: its votes are revoked and its GAS paid out with a payment callback; afterwards it cannot
+				// be called any more (payments to it and calls through it fault)
+				c.src = w.wallets[r.Intn(len(w.wallets))]
 			}
 		default:
 			c = &call{kind: kUnblock, src: w.cands[r.Intn(len(w.cands))].GetScriptHash()}
